@@ -192,8 +192,15 @@ pub enum Node {
     Panic,
     /// run the body on a fresh OS thread (joined before continuing), moving `carry` frames there
     Thread { carry: Vec<u32>, body: Vec<Node> },
-    /// run the tasks on a single-thread executor polling in `schedule` order
-    Join { tasks: Vec<Task>, schedule: Vec<u32> },
+    /// run the tasks on a single-thread executor polling in `schedule` order: (which of the
+    /// unfinished tasks, poll it on a fresh helper thread instead of the executor's thread). The
+    /// helper-thread form is only used where nothing is visible on the executor's thread, so that a
+    /// task sees the same surroundings wherever it is polled (a work-stealing runtime moving a
+    /// suspended future between workers).
+    Join { tasks: Vec<Task>, schedule: Vec<(u32, bool)> },
+    /// on a spawned thread: hand control to the (blocked) parent thread, which checks that what IT
+    /// sees is untouched by whatever this thread has active right now; a plain check on the main thread
+    ParentCheck,
     /// inside a task / `in_future` body: return `Pending` once (no-op elsewhere)
     Yield,
 }
@@ -810,6 +817,46 @@ fn payload_text(p: &(dyn Any + Send)) -> String {
     }
 }
 
+thread_local! {
+    /// On a spawned thread: the link to the parent thread, which serves check requests while it
+    /// waits for this thread (a deterministic hand-off, no timing involved).
+    static PARENT: std::cell::RefCell<Option<ParentLink>> = const { std::cell::RefCell::new(None) };
+}
+
+struct ParentLink {
+    req: std::sync::mpsc::Sender<()>,
+    rep: std::sync::mpsc::Receiver<Res>,
+}
+
+struct ClearParent;
+
+impl Drop for ClearParent {
+    fn drop(&mut self) {
+        PARENT.with(|p| p.borrow_mut().take());
+    }
+}
+
+/// Run `f` on a fresh OS thread and wait for it. While waiting, the calling thread answers the
+/// child's `ParentCheck` requests by checking its own view against `parent_env`.
+fn on_fresh_thread<T: Send>(k: &K, parent_env: &Env, f: impl FnOnce() -> Result<T, Fail> + Send) -> Result<T, Fail> {
+    let (req_tx, req_rx) = std::sync::mpsc::channel::<()>();
+    let (rep_tx, rep_rx) = std::sync::mpsc::channel::<Res>();
+    let r = std::thread::scope(|s| {
+        let h = s.spawn(move || {
+            PARENT.with(|p| *p.borrow_mut() = Some(ParentLink { req: req_tx, rep: rep_rx }));
+            let _clear = ClearParent;
+            f()
+        });
+        // ends when the child drops its sender (normal end, failure or unwinding)
+        while req_rx.recv().is_ok() {
+            let r = check_all(k, parent_env, "parent-while-child-thread-runs");
+            let _ = rep_tx.send(r);
+        }
+        h.join()
+    });
+    joined(r, k)
+}
+
 /// Result of joining a scoped thread that ran a program fragment.
 fn joined<T>(r: std::thread::Result<Result<T, Fail>>, k: &K) -> Result<T, Fail> {
     match r {
@@ -927,24 +974,41 @@ async fn step<'a, 'c: 'a>(n: &'a Node, env: &'a Env, st: &'a mut Store<'c>, k: &
                 since_catch: fl.since_catch,
                 fut_depth: 0,
             };
-            let r = std::thread::scope(|s| {
-                s.spawn(move || -> Result<Store<'c>, Fail> {
-                    // a fresh thread sees nothing, whatever is active on its parent
-                    let e = Env::empty();
-                    check_all(k, &e, "thread-start")?;
-                    let mut st2 = moved;
-                    block_on_ready(run(body, e.clone(), &mut st2, k, fl_t))?;
-                    check_all(k, &e, "thread-end")?;
-                    Ok(st2)
-                })
-                .join()
-            });
-            let back = joined(r, k)?;
+            let back = on_fresh_thread(k, env, move || -> Result<Store<'c>, Fail> {
+                // a fresh thread sees nothing, whatever is active on its parent
+                let e = Env::empty();
+                check_all(k, &e, "thread-start")?;
+                let mut st2 = moved;
+                block_on_ready(run(body, e.clone(), &mut st2, k, fl_t))?;
+                check_all(k, &e, "thread-end")?;
+                Ok(st2)
+            })?;
             st.extend(back);
             // the parent is unaffected by whatever the thread did
             check_all(k, env, "after-thread-join")
         }
         Node::Join { tasks, schedule } => join(tasks, schedule, env, st, k, fl),
+        Node::ParentCheck => {
+            let asked = PARENT.with(|p| {
+                p.borrow().as_ref().map(|l| {
+                    let _ = l.req.send(());
+                    l.rep.recv()
+                })
+            });
+            match asked {
+                // main thread: nobody to ask
+                None => check_all(k, env, "check"),
+                Some(Ok(parent_result)) => {
+                    k.label("thread:parent-checked-while-child-runs");
+                    if fl.depth > 0 {
+                        k.label("thread:parent-checked-while-child-has-active-frame");
+                    }
+                    parent_result?;
+                    check_all(k, env, "check")
+                }
+                Some(Err(_)) => panic!("c03 harness: parent thread went away"),
+            }
+        }
         Node::Yield => {
             if fl.can_yield {
                 k.label("yield");
@@ -962,8 +1026,16 @@ async fn step<'a, 'c: 'a>(n: &'a Node, env: &'a Env, st: &'a mut Store<'c>, k: &
     }
 }
 
-fn join<'a, 'c: 'a>(tasks: &'a [Task], schedule: &'a [u32], env: &'a Env, st: &'a mut Store<'c>, k: &'c K, fl: Fl) -> Res {
+/// A task future is never suspended while it holds a `!Send` value (guards live within one poll:
+/// synchronous bodies cannot suspend), so a *suspended* task may be polled from another thread.
+struct AssertSend<T>(T);
+unsafe impl<T> Send for AssertSend<T> {}
+
+fn join<'a, 'c: 'a>(tasks: &'a [Task], schedule: &'a [(u32, bool)], env: &'a Env, st: &'a mut Store<'c>, k: &'c K, fl: Fl) -> Res {
     k.label("join");
+    // polling elsewhere is only meaningful for the lexical model where the executor's thread shows
+    // nothing (a fresh thread shows nothing either)
+    let may_migrate = env.0.iter().all(|m| m.is_empty());
     let n = tasks.len();
     let mut futs: Vec<Option<BoxFut<'a, Result<Store<'c>, Fail>>>> = Vec::with_capacity(n);
     for t in tasks {
@@ -997,11 +1069,11 @@ fn join<'a, 'c: 'a>(tasks: &'a [Task], schedule: &'a [u32], env: &'a Env, st: &'
         if alive.is_empty() {
             break;
         }
-        let i = match sched.next() {
-            Some(x) => alive[pick(*x, alive.len())],
+        let (i, elsewhere) = match sched.next() {
+            Some((x, elsewhere)) => (alive[pick(*x, alive.len())], *elsewhere && may_migrate),
             None => {
                 rr += 1;
-                alive[rr % alive.len()]
+                (alive[rr % alive.len()], false)
             }
         };
         guard += 1;
@@ -1020,7 +1092,28 @@ fn join<'a, 'c: 'a>(tasks: &'a [Task], schedule: &'a [u32], env: &'a Env, st: &'
             }
         }
         k.stat(|s| s.polls += 1);
-        let r = futs[i].as_mut().unwrap().as_mut().poll(&mut cx);
+        let r = if elsewhere {
+            k.label("thread");
+            k.label("join:polled-on-helper-thread");
+            if suspended_frames[i] > 0 {
+                // a suspended frame-wrapped future resumed on a different thread
+                k.label("hop:suspended-future-resumed-on-other-thread");
+            }
+            let fut = AssertSend(futs[i].as_mut().unwrap());
+            on_fresh_thread(k, env, move || {
+                let fut = fut;
+                let e = Env::empty();
+                check_all(k, &e, "thread-start")?;
+                let mut cx = Context::from_waker(Waker::noop());
+                let r = fut.0.as_mut().poll(&mut cx);
+                // completed or suspended: the helper thread is left as it was found
+                check_all(k, &e, "after-poll-on-helper-thread")?;
+                Ok(AssertSend(r))
+            })?
+            .0
+        } else {
+            futs[i].as_mut().unwrap().as_mut().poll(&mut cx)
+        };
         // a task that completed or merely suspended leaves the executor's thread as it found it
         match r {
             Poll::Pending => {
@@ -1253,15 +1346,11 @@ where
                 drop(st2);
                 check_all(k, &e_in2, "before-in_fn-return")
             });
-            let r = std::thread::scope(|s| {
-                s.spawn(move || -> Res {
-                    check_all(k, &e0, "thread-start")?;
-                    f()?;
-                    check_all(k, &e0, "thread-end")
-                })
-                .join()
-            });
-            joined(r, k)?;
+            on_fresh_thread(k, outer, move || -> Res {
+                check_all(k, &e0, "thread-start")?;
+                f()?;
+                check_all(k, &e0, "thread-end")
+            })?;
             check_all(k, outer, "after-thread-join")?;
             Ok(None)
         }
